@@ -51,6 +51,39 @@ CHECKS.update({
         ref="§4 C13"),
 })
 
+CHECKS.update({
+    "C05": dict(
+        text="One-step theorems for EVERY state (not only reachable ones), key and multiplicity: lin_add_self/mono/bound/local/nadded for the linear kernel and logCounter_steps/exact/le_max, "
+             "log_add_steps/exact/mono/bound/local/nadded for log8/log16 under ARBITRARY draws and an arbitrary decision function (only inc(0,u)=true assumed for exactness). "
+             "The run re-checks the proofs, compares the real kernels with the exact models after every add (tables, n_added, consumed draws; draws placed by the harness) "
+             "and evaluates the one-step oracle on the real values.",
+        tech="Lean 4 proof (one-step theorems over all states, arbitrary draws) + differential correspondence with placed draws",
+        ref="§4 C05"),
+    "C06": dict(
+        text="C06_lower/C06_exact prove estimate ≥ min(true, num_reserved+1) on every history (adds with arbitrary draws, merges by the nearest-counter specification) and exactness for "
+             "collision-free keys; rand_fresh proves the t-th draw handed out is element t of the concatenated batches (never recycled, none skipped); step_unbias/chain_mean prove over an "
+             "arbitrary field that the expected decoded value after n unit adds is true count + n until the ceiling, given P(rand < base^-c') = base^-c'. The run ties _log_counter/_rand to "
+             "the model with placed draws and a seeded Numba generator across refills.",
+        tech="Lean 4 proof (history invariants over log contracts; outcome-tree expectation over a field; _rand state machine) + correspondence with placed draws / seeded refills",
+        note=TB + " PRNG uniformity/independence is an assumption; the Monte-Carlo comparison in the thorough tier is a refutation search, not part of the proof.",
+        ref="§4 C06"),
+    "C09": dict(
+        text="Linear: lin_merge_cell/comm/empty/ge/query/books (saturating sum and its consequences). Log: nearest_spec, merge_reserved, merge_ceiling, merge_comm, merge_empty, merge_ge, "
+             "nearest_ge for ANY decode that is linear up to num_reserved+1 and strictly increasing; decS_ok shows the exact scaled decode of the code's formula is one; nearestFast_eq ties the "
+             "driver's evaluator to the specification. The run compares the real merge on ALL 256×256 log8 counter pairs (and 65536 + sampled log16 pairs) with the Lean float mirror, the Lean exact "
+             "specification and an independent exact oracle.",
+        tech="Lean 4 proof (nearest-counter specification over exact scaled integers) + all-pairs differential correspondence",
+        note=TB + " The code evaluates the log merge in float64; ties within 1e-9 of the gap between neighbouring decoded values accept either neighbour.",
+        ref="§4 C09"),
+    "C18": dict(
+        text="lin_sticky (no estimate ever decreases under any sequence of adds and merges on either side; 2^32-1 is absorbing), counter_stop/log_add_sticky/log_merge_sticky for log counters, "
+             "hh_alone (a key alone in its cells holds exactly min(true, 2^32-1)) for every history tree. The clause about _find_base (a float Newton iteration) is checked against its "
+             "specification |dec(max counter) - max_count| ≤ 1e-6·max_count or ValueError on a configuration grid — a test, labelled as such.",
+        tech="Lean 4 proof (monotonicity/stickiness over operation sequences; exact cell content when alone) + correspondence near ceilings + find_base grid test",
+        note=TB + " _find_base numerics are NOT proved (checked against a spec on a grid).",
+        ref="§4 C18"),
+})
+
 NOT_YET = {}
 
 
